@@ -591,7 +591,9 @@ static bool capi_ops(const char* op) {
         // pairing_sum <repeat> <n> then n triples: kind(a|p) g1a g2a ; kind p = prepared. With repeat=2 the same arrays are reused.
         int repeat = (int) argi(1), n = (int) argi(2);
         int na = 0, np = 0;
-        for (int i = 0; i < n; i++) { if (arg(3 + 3 * i)[0] == 'a') na++; else np++; }
+        // kind letters: a / p = affine / prepared pair with its own G2 object; A / P = the pair points at the SAME G2 object as the previous
+        // pair of its kind (callers legitimately share one Q between pairs); the G1 objects are always distinct
+        for (int i = 0; i < n; i++) { char kc = arg(3 + 3 * i)[0]; if (kc == 'a' || kc == 'A') na++; else np++; }
         G1Affine* g1s = (G1Affine*) malloc(sizeof(G1Affine) * (n ? n : 1));
         G2Affine* g2s = (G2Affine*) malloc(sizeof(G2Affine) * (n ? n : 1));
         G2Prepared* preps = (G2Prepared*) malloc(sizeof(G2Prepared) * (np ? np : 1));
@@ -599,14 +601,23 @@ static bool capi_ops(const char* op) {
         embedded_pairing_bls12_381_prepared_pair_t* pp = np ? (embedded_pairing_bls12_381_prepared_pair_t*) malloc(sizeof(*pp) * np) : NULL;
         int ia = 0, ip = 0;
         for (int i = 0; i < n; i++) {
+            char kc = arg(3 + 3 * i)[0];
             ld(4 + 3 * i, g1s[i]); ld(5 + 3 * i, g2s[i]);
-            if (arg(3 + 3 * i)[0] == 'a') {
+            if (kc == 'a' || kc == 'A') {
                 memset(&ap[ia], 0xa5, sizeof ap[ia]);
-                ap[ia].g1 = CG1A(&g1s[i]); ap[ia].g2 = CG2A(&g2s[i]); ia++;
+                ap[ia].g1 = CG1A(&g1s[i]);
+                ap[ia].g2 = (kc == 'A' && ia > 0) ? ap[ia - 1].g2 : CG2A(&g2s[i]);
+                ia++;
             } else {
-                embedded_pairing_bls12_381_g2prepared_prepare((embedded_pairing_bls12_381_g2prepared_t*) &preps[ip], CG2A(&g2s[i]));
                 memset(&pp[ip], 0xa5, sizeof pp[ip]);
-                pp[ip].g1 = CG1A(&g1s[i]); pp[ip].g2 = (embedded_pairing_bls12_381_g2prepared_t*) &preps[ip]; ip++;
+                pp[ip].g1 = CG1A(&g1s[i]);
+                if (kc == 'P' && ip > 0) {
+                    pp[ip].g2 = pp[ip - 1].g2;
+                } else {
+                    embedded_pairing_bls12_381_g2prepared_prepare((embedded_pairing_bls12_381_g2prepared_t*) &preps[ip], CG2A(&g2s[i]));
+                    pp[ip].g2 = (embedded_pairing_bls12_381_g2prepared_t*) &preps[ip];
+                }
+                ip++;
             }
         }
         for (int rep = 0; rep < repeat; rep++) {
